@@ -463,6 +463,18 @@ async fn on_commitment_revocation(
     let proxy = plugin.state().lock().unwrap().proxy.clone();
 
     for (tower_id, net_addr, status) in towers {
+        // The same revocation may be notified more than once (e.g. after a restart). Towers that already have the
+        // appointment, or for which it is already waiting to be sent (or was rejected), need nothing else.
+        if plugin
+            .state()
+            .lock()
+            .unwrap()
+            .knows_appointment(tower_id, locator)
+        {
+            log::debug!("{tower_id} already knows about {locator}");
+            continue;
+        }
+
         if status.is_reachable() {
             match http::add_appointment(tower_id, &net_addr, &proxy, &appointment, &signature).await
             {
